@@ -19,6 +19,8 @@ type Env struct {
 	Rt  wazero.Runtime
 	Mod api.Module
 	Mem api.Memory
+	// CallHook, when set, replaces the call (used to plan a sequence of calls and to read back its outputs)
+	CallHook func(name string, args []uint64) (uint32, error)
 }
 
 // New creates a runtime, instantiates WASI and the proxy guest configured by mc.
@@ -53,6 +55,9 @@ func (e *Env) Close() { _ = e.Rt.Close(e.Ctx) }
 
 // Call invokes the WASI function; returns the errno, or an error (trap, Go runtime error, exit).
 func (e *Env) Call(name string, args ...uint64) (uint32, error) {
+	if e.CallHook != nil {
+		return e.CallHook(name, args)
+	}
 	f := e.Mod.ExportedFunction(name)
 	if f == nil {
 		return 0, fmt.Errorf("no such WASI function %q", name)
